@@ -154,6 +154,7 @@ func (c *GroupCoordinator) JoinGroup(ctx context.Context, req *kmsg.JoinGroupReq
 	} else if member.sessionTimeout == 0 {
 		member.sessionTimeout = defaultSessionTimeout
 	}
+	previousTopics := member.topics
 	member.topics = c.parseSubscriptionTopics(req.Protocols)
 	member.lastHeartbeat = time.Now()
 
@@ -161,6 +162,10 @@ func (c *GroupCoordinator) JoinGroup(ctx context.Context, req *kmsg.JoinGroupReq
 		state.leaderID = memberID
 		state.startRebalance(timeout)
 	} else if state.state == groupStateStable && !exists {
+		state.startRebalance(timeout)
+	} else if state.state == groupStateStable && !sameTopicSet(previousTopics, member.topics) {
+		// An existing member changed its subscription: the assignment computed for the
+		// current generation no longer matches, so the group has to rebalance.
 		state.startRebalance(timeout)
 	} else if state.state == groupStateEmpty {
 		state.startRebalance(timeout)
@@ -913,6 +918,21 @@ func (c *GroupCoordinator) assignPartitions(ctx context.Context, state *groupSta
 	}
 
 	return assignments
+}
+
+func sameTopicSet(a, b []string) bool {
+	set := make(map[string]struct{}, len(a))
+	for _, t := range a {
+		set[t] = struct{}{}
+	}
+	other := make(map[string]struct{}, len(b))
+	for _, t := range b {
+		if _, ok := set[t]; !ok {
+			return false
+		}
+		other[t] = struct{}{}
+	}
+	return len(set) == len(other)
 }
 
 func memberSubscribes(member *memberState, topic string) bool {
